@@ -203,8 +203,8 @@ def _function_over_two_vars(repr_func, raw_func, x, y, out=None, out_like=None, 
     else:
         config = x.config
 
-    # (a result object with scale or bias takes the value, not a raw code; so does a template given together with a scaled second operand)
-    _scaled = x.scaled or (out is not None and out.scaled) or (out_like is not None and (out_like.scaled or y.scaled))
+    # (a scaled operand - either one - gives its value, not its raw code; a result object with scale or bias takes the value)
+    _scaled = x.scaled or y.scaled or (out is not None and out.scaled) or (out_like is not None and out_like.scaled)
     if method == 'repr' or _scaled or n_frac is None:
         raw = False
         x_val, y_val = _repr_val(x), _repr_val(y)
